@@ -750,3 +750,7 @@ fn operate_header_no_ack<I, V>(
         *num_controls += 1;
     }
 }
+
+#[cfg(kani)]
+#[path = "/verif/harness/outstation_control_collection.rs"]
+mod verif_harness;
